@@ -21,7 +21,17 @@ def prepare_vtime(ctx):
     ctx.build_harness(tags="vshim")
 
 
-PREPARE = {"C08": prepare_vtime}
+def prepare_shims(ctx):
+    """scratch copy with `sync`, `time` and singleflight redirected to the controllable shims"""
+    ctx.setup(need_harness=False)
+    sf = os.path.join(os.path.expanduser("~"), "go/pkg/mod/golang.org/x/sync@v0.1.0/singleflight/singleflight.go")
+    if not os.path.exists(sf):
+        raise Infra("cached source of golang.org/x/sync/singleflight not found")
+    ctx.apply_shims(only="sync,time,golang.org/x/sync/singleflight", singleflight=sf)
+    ctx.build_harness(tags="vshim")
+
+
+PREPARE = {"C08": prepare_vtime, "C20": prepare_shims, "C17": prepare_shims, "C02": prepare_shims, "C01": prepare_shims}
 
 
 def seq_container(ctx, driver, trace_module, model_checks, depth, shards=8, extra_args=(), kf_controls=(),
@@ -185,3 +195,34 @@ def c16(ctx):
 def c08(ctx):
     return seq_container(ctx, "expcache", "ExpCacheTrace", [("ExpCacheMC", "ExpCacheMC.cfg")],
                          depth=dict(quick=3, thorough=4), shards=12, prepare=prepare_vtime, procs=True)
+
+
+@handler("C20")
+def c20(ctx):
+    ctx.prepare = prepare_shims
+    prepare_shims(ctx)
+    opn, _ = vlib.known_findings(ctx.prop)
+    ctx.model_check("DebounceMC", "DebounceMC.cfg")
+    deep = "_deep" if ctx.tier == "thorough" else ""
+    ctx.model_check("ThrottleMC", "ThrottleMC%s.cfg" % deep, workers=8, xmx="10g")
+    ctx.model_check("ThrottleMC", "ThrottleMC_nt%s.cfg" % deep, workers=8, xmx="10g")
+    # non-vacuity: with the early hand-out of a stored trailing trigger (the defect repaired by 87aefa9) enabled
+    # as an action, the spacing invariant fails
+    ctx.model_check("ThrottleMC", "ThrottleMC_kf.cfg", expect_violation="Spacing")
+    nviol = 0
+    out = os.path.join(ctx.scratch, "t", "debounce")
+    summ = ctx.drive_procs("debounce", ["-out", out, "-depth", dict(quick=6, thorough=8)[ctx.tier]], 8)
+    if summ["nodes"] < 10:
+        raise Infra("driver debounce recorded only %d nodes" % summ["nodes"])
+    ctx.notes["driver_debounce"] = dict(nodes=summ["nodes"], root_to_leaf_paths=summ["leaves"], panics_recorded=summ["panics"])
+    nviol += vlib.check_recordings(ctx, "debounce", "DebounceTrace", summ["files"], [])
+    # throttle: every interleaving (preemption bound 2, thorough 3) of every script up to the depth
+    out = os.path.join(ctx.scratch, "t", "throttle")
+    summ = ctx.drive_procs("throttle", ["-out", out, "-depth", dict(quick=3, thorough=4)[ctx.tier]], 12)
+    if summ["nodes"] < 10:
+        raise Infra("driver throttle recorded only %d nodes" % summ["nodes"])
+    ctx.notes["driver_throttle"] = dict(nodes=summ["nodes"], distinct_histories=summ["leaves"], extra=summ["extra"])
+    nviol += vlib.check_recordings(ctx, "throttle", "ThrottleTrace", summ["files"], opn, variant_of=lambda f: "tree",
+                                   reproducer=vlib.sched_reproducer("throttle"))
+    vlib.write_evidence(ctx, exhaustive=False)
+    return nviol
